@@ -67,6 +67,45 @@ def decode_out(line):
     return [unhexs(h) for h in rest.split(" ")]
 
 
+def gotool_eval(ctx, flags, exprs, si):
+    """the go tool's own verdict: one file per expression carrying `// +build <expr>`, listed with `go list -tags`.
+    -> string of 0/1 in the order of exprs.  The -tags VALUE handed to the go tool is the comma-joined list of tags an
+    independent reading of the flags yields (`-tags v` and `-tags=v`, values split at commas and blanks)."""
+    tags = []
+    i = 0
+    while i < len(flags):
+        f = flags[i]
+        if f == "-tags" and i + 1 < len(flags):
+            tags += [t for t in flags[i + 1].replace(" ", ",").split(",") if t]
+            i += 2
+            continue
+        if f.startswith("-tags="):
+            tags += [t for t in f[6:].replace(" ", ",").split(",") if t]
+        i += 1
+    d = os.path.join(ctx.scratch, "gotool%d" % si)
+    os.makedirs(d, exist_ok=True)
+    with open(os.path.join(d, "go.mod"), "w") as f:
+        f.write("module check\n\ngo 1.24\n")
+    with open(os.path.join(d, "zz_always.go"), "w") as f:
+        f.write("package check\n")
+    for j, e in enumerate(exprs):
+        with open(os.path.join(d, "f%03d.go" % j), "w") as f:
+            f.write("// +build %s\n\npackage check\n" % e)
+    cmd = ["go", "list", "-f", "{{range .GoFiles}}{{.}} {{end}}"] + (["-tags", ",".join(tags)] if tags else []) + ["."]
+    p = run_cmd_c17(cmd, d)
+    if p.returncode != 0:
+        raise RuntimeError("go list (oracle for build constraints) failed:\n" + (p.stdout + p.stderr)[-1500:])
+    listed = set(p.stdout.split())
+    return "".join("1" if ("f%03d.go" % j) in listed else "0" for j in range(len(exprs)))
+
+
+def run_cmd_c17(cmd, cwd):
+    from vlib.common import run as _run
+    env = go_env()
+    env["CGO_ENABLED"] = "1"
+    return _run(cmd, cwd=cwd, env=env, timeout=600)
+
+
 def run(ctx, args):
     n = 4000 if ctx.tier == "quick" else 200000
     rng = ctx.rng
@@ -108,6 +147,29 @@ printf '%s\\n' "$out"
             cases.append(("parse-rt", "parse " + hexs(quote(a)), [x.encode() for x in a], a))
         else:
             cases.append(("split-rt", "split " + hexs(" ".join(f[:2] + esc_blank(f[2:]) for f in a)), [x.encode() for x in a], a))
+    # build-constraint expressions: CheckTags(flags, exprs) vs (1) the Lean model and (2) the go tool itself
+    # (`go list -tags ...` over files carrying the same `// +build` lines)
+    n_sets = 6 if ctx.tier == "quick" else 40
+    for si in range(n_sets):
+        tagset = rng.sample(["a", "b", "c", "x", "ignore", "linux", "windows", "t_1", "v1.2"], rng.randint(0, 4))
+        r = rng.random()
+        if not tagset:
+            fl = rng.choice([[], ["-v"], ["-tags="]])
+        elif r < 0.4:
+            fl = ["-tags", rng.choice([",", " "]).join(tagset)]
+        elif r < 0.8:
+            fl = ["-tags=" + ",".join(tagset)]
+        else:
+            half = len(tagset) // 2
+            fl = ["-tags=" + ",".join(tagset[:half]), "-x", "-tags", " ".join(tagset[half:]), "-tags=" + tagset[0]]
+        exprs = ["a", "!a", "a,b", "a b", "!a,!b", "!!a", "!", "", "linux", "!linux", "linux,gc", "windows a", "ignore", "!ignore", "$", "!$", "a,,b", "a,", ",", "t_1", "v1.2,!x"]
+        alpha = ["a", "b", "c", "x", "linux", "windows", "gc", "ignore", "!", "!", ",", ",", " ", "  ", "\t", "$", "t_1", "v1.2", "-"]
+        while len(exprs) < (40 if ctx.tier == "quick" else 120):
+            exprs.append("".join(rng.choice(alpha) for _ in range(rng.randint(1, 7))))
+        exprs = list(dict.fromkeys(e.strip(" \t") if rng.random() < 0.5 else e for e in exprs))
+        exprs = list(dict.fromkeys(exprs))
+        line = "check %s %s" % (",".join(hexs(x) for x in fl) if fl else ".", ",".join(hexs(e) for e in exprs))
+        cases.append(("check", line, gotool_eval(ctx, fl, exprs, si), (fl, exprs)))
     for i in range(n):
         k = i % 10
         if k in (0, 1):      # documented double-quote form
@@ -284,6 +346,15 @@ printf '%s\\n' "$out"
                 ctx.report("xenv:expansion:" + lines_real[ci], "ExpandEnv/ExpandEnvToArgs does not substitute exactly the referenced values",
                            {"template": meta[0], "env": meta[1], "expected": [exp_r, exp_args], "real": r, "line": lines_real[ci],
                             "note": "pkg-config/llvm-config are the stand-in scripts of checks/c17.py"})
+        elif kind == "check":
+            fl_, exprs_ = meta
+            got = r[3:] if r.startswith("ok ") else r
+            if got != exp:
+                spec_fail += 1
+                bad = [exprs_[j] for j in range(min(len(got), len(exp))) if got[j] != exp[j]] if len(got) == len(exp) else ["<answer malformed>"]
+                ctx.report("buildtags:checktags:%s:%s" % (" ".join(fl_), bad[0] if bad else "?"),
+                           "CheckTags(%r) disagrees with the go tool (`go list -tags`) on the +build expression(s) %r" % (fl_, bad[:5]),
+                           {"flags": fl_, "expressions": exprs_, "real": got, "go_tool": exp, "line": lines_real[ci]})
         elif kind == "expand":
             if len(set(ms)) > 1:
                 stats["expand-order-dependent"] = stats.get("expand-order-dependent", 0) + 1
@@ -308,7 +379,7 @@ printf '%s\\n' "$out"
     ctx.coverage["trusted_base"] += [
         "hand-written Lean model of shellparse/safesplit/buildtags/env tied by differential run on %d generated lines (real Go code built from the working tree vs compiled Lean model)" % len(lines_real),
         "Python generator + quoting functions in checks/c17.py (quote = documented double-quote form)",
-        "go/build evaluates the tag expressions in CheckTags (not llgo code, not modelled)",
+        "CheckTags: go/build's evaluation of an old-style `// +build` line is modelled (Model/Shell.lean evalPlusBuild) for blank/comma/!/malformed-term syntax over an ASCII tag alphabet on a linux/amd64 host; the oracle is the go tool itself (`go list -tags` over files carrying the same lines)",
     ]
     ctx.assumptions += ["safesplit is modelled over characters: valid UTF-8 inputs only"]
     return ctx.finish("proof", {"evaluations": len(lines_real), "distinct_nontrivial": len(nontrivial),
